@@ -11,7 +11,7 @@ A case is a JSON object
   {"rlimit": n,
    "params": [{"key": K, "name": str|null, "values": [int|float|str...], "label": str|[str...]|null}],
    "steps":  [{"name": s, "description": d, "run": {"cmd":..., "depends": [...], "restart":..., ...}}],
-   "stream": "...", "scan": [[key, text], ...]?, "ws": [text...]?}
+   "stream": "...", "restage": ["same"|"toggle"|"meta", ...]?}   (restage: see stage_all)
 Observable of a staging: the used-parameter table (`study.used_params`), and
 for every node of the ExecutionGraph in `values` order: name, adjacency list,
 `_dependencies` (a set: listed in `values` order), restart limit, record
@@ -489,7 +489,7 @@ def load_corpus(pid=PID):
 
 
 def case_key(case):
-    return json.dumps({k: case[k] for k in ("rlimit", "params", "steps")}, sort_keys=True)
+    return json.dumps({k: case.get(k) for k in ("rlimit", "params", "steps", "restage")}, sort_keys=True)
 
 
 def nontrivial(case, o):
@@ -526,6 +526,50 @@ def regex_texts():
     return notes
 
 
+RESTAGE_PLANS = [["same"], ["same", "same"], ["toggle", "same"], ["toggle", "toggle", "same"], ["meta", "same"]]
+
+
+def stage_all(case, root):
+    """The observables of ALL compared stagings of one case: the first one, and -- for a case with a
+    "restage" plan -- every further `stage()` on the SAME Study object that runs under the model's
+    configuration.  Plan entries: "same" = configure_study with the same settings, then stage (compared);
+    "toggle" = configure_study(dry_run/throttle/hash_ws/use_tmp toggled), then stage (state is carried on,
+    the graph itself is not compared: the model has hash_ws off); "meta" = store_metadata()+load_metadata()
+    (skipped silently where the tree's load_metadata cannot run), then stage as "same".
+    Staging is a function of the specification, so every compared observable must equal the model's."""
+    o, study, dag = stage_real(case, root)
+    out = [o]
+    if not case.get("restage") or not o.get("ok") or study is None:
+        return out
+    for k, how in enumerate(case["restage"]):
+        try:
+            if how == "toggle":
+                study.configure_study(throttle=2, submission_attempts=2, restart_limit=case["rlimit"] + 1,
+                                      use_tmp=True, hash_ws=True, dry_run=False)
+                study.stage()
+                continue
+            if how == "meta":
+                try:
+                    study.store_metadata()
+                    study.load_metadata()
+                except Exception:
+                    pass
+            study.configure_study(throttle=0, submission_attempts=1, restart_limit=case["rlimit"],
+                                  use_tmp=False, hash_ws=False, dry_run=True)
+            _, dag = study.stage()
+        except Exception as e:
+            out.append({"ok": False, "err": 2, "exc": type(e).__name__, "msg": str(e)[:200], "staging": k + 2})
+            continue
+        try:
+            o2 = observe_dag(case, study, dag, root)
+        except Exception as e:
+            o2 = {"ok": False, "err": 3, "exc": type(e).__name__, "msg": str(e)[:200]}
+        o2["staging"] = k + 2
+        out.append(o2)
+    return out
+
+
+STAGINGS = {}    # tag -> number of stagings compared with the model
 DOMAIN = {}      # tag -> indices of the cases outside hygiene H8 (None when not computed)
 
 
@@ -535,14 +579,19 @@ def evaluate(ck, cases, tag="C08", want_domain=False):
     work = os.path.join(common.WORK, "run-" + tag.lower())
     shutil.rmtree(work, ignore_errors=True)
     os.makedirs(work)
-    lits, obs = [], []
+    lits, obs, owner, spec_lits = [], [], [], []
     for i, case in enumerate(cases):
         root = os.path.join(work, "r%d" % i, "out")
-        o, _, _ = stage_real(case, root)
-        o = relativise(o, root)
+        allobs = [relativise(o, root) for o in stage_all(case, root)]
         shutil.rmtree(os.path.dirname(root), ignore_errors=True)
-        obs.append(o)
-        lits.append(g_case(case, o))
+        obs.append(allobs[0])
+        if len(allobs) > 1:
+            allobs[0]["restagings"] = [{"staging": o.get("staging"), "ok": o.get("ok"),
+                                       "nodes": len(o.get("nodes", []))} for o in allobs[1:]]
+        for o in allobs:                 # one literal per compared staging; lits[j] belongs to cases[owner[j]]
+            lits.append(g_case(case, o))
+            owner.append((i, o.get("staging", 1)))
+        spec_lits.append("(%s, (E_ 0))" % g_spec(case))
     shutil.rmtree(work, ignore_errors=True)
     ty = "spec * result obs"
     # small shards: the quick tier's ~700 cases are evaluated by ~8 coqc processes in parallel
@@ -552,7 +601,7 @@ def evaluate(ck, cases, tag="C08", want_domain=False):
         f_main = ex.submit(common.coq_failing, tag, HEADER, ty, "c08_case", lits, shard)
         # hygiene depends on the specification only: the observable is left out of these literals
         f_hyg = ex.submit(common.coq_failing, tag + "_dom", HEADER, ty, "c08_hyg",
-                          ["(%s, (E_ 0))" % g_spec(c) for c in cases], 200) if want_domain else None
+                          spec_lits, 200) if want_domain else None
         bad, errs = f_main.result()
         outside = set(f_hyg.result()[0]) if f_hyg else None
     DOMAIN[tag] = outside
@@ -566,12 +615,17 @@ def evaluate(ck, cases, tag="C08", want_domain=False):
             res = list(ex.map(lambda nf: common.coq_failing("%s_%s" % (tag, nf[0]), HEADER, ty, nf[1], sub), fns))
         (bad_agree, e1), (bad_mon, e2), (bad_hyg, e3), (has_k2, e4), (has_k2b, e5) = res
         errs = errs + e1 + e2 + e3 + e4 + e5
-        for j, i in enumerate(bad):
+        rank = {"ok": 0, "ood": 1, "known:K2": 2, "known:K2b": 2, "known:K2c": 2, "mismatch": 3, "violation": 4}
+        for j, li in enumerate(bad):
+            i, staging = owner[li]
             d = {"model_differs": j in bad_agree, "monitor_false": j in bad_mon,
                  "outside_hygiene": j in bad_hyg, "sig_label_join": j in has_k2,
-                 "sig_name_clash": j in has_k2b}
-            detail[i] = d
-            verdicts[i] = classify(d)
+                 "sig_name_clash": j in has_k2b, "staging": staging}
+            v = classify(d)
+            if rank[v] > rank[verdicts[i]]:      # the worst staging decides the case
+                detail[i] = d
+                verdicts[i] = v
+    STAGINGS[tag] = len(lits)
     return obs, verdicts, detail, errs
 
 
@@ -583,6 +637,11 @@ def classify(d):
     mismatch: model and implementation disagree."""
     if d["monitor_false"] and not d["outside_hygiene"]:
         return "violation"
+    if d["model_differs"] and d.get("staging", 1) > 1 and d["outside_hygiene"] and d["sig_name_clash"]:
+        # K2c: the "already processed" test `combo_str in self.step_combos` looks at the STEP names; a step
+        # whose name equals an instance name (K2b input) is in that dict after the first staging, so a
+        # re-staging skips that instance -- outside H8, the unchanged tree's second staging differs
+        return "known:K2c"
     if d["model_differs"]:
         return "mismatch"
     if d["monitor_false"]:
@@ -595,6 +654,9 @@ def classify(d):
 
 
 KNOWN_WHAT = {
+    "K2c": "on a K2b input (an instance name equal to a step name) a second stage() of the same Study object "
+           "skips that instance: the 'already processed' test reads the dict of step names, which by then holds "
+           "the clashing step (outside H8; inside H8 every staging equals the first)",
     "K2": "labels of the used parameters are joined by '.' without escaping: two rows that differ on a used "
           "parameter get one instance name and one of the two instances is lost (C08_ok false outside H8)",
     "K2b": "step + '_' + combination is not escaped: an instance name equal to another step's name (or to an "
@@ -623,6 +685,12 @@ def run(ck):
     cases += [gen_case(rng, "valid") for _ in range(n_valid)]
     cases += [gen_case(rng, "prefix") for _ in range(n_prefix)]
     cases += [gen_case(rng, "exotic") for _ in range(n_exotic)]
+    # re-stage stream: a share of the cases is staged two or three times on the SAME Study object
+    rr = random.Random(ck.seed * 7919 + 13)
+    for k, case in enumerate(cases):
+        share = {"tiny": 0.25, "valid": 0.30, "prefix": 0.30, "exotic": 0.15}.get(case["stream"], 0.0)
+        if "restage" not in case and rr.random() < share:
+            case["restage"] = rr.choice(RESTAGE_PLANS)
     t0 = time.time()
     obs, verdicts, detail, errs = evaluate(ck, cases, want_domain=True)
     ck.notes["phase_s"] = {"build_proofs(incl. waiting for the shared coq lock)": round(t_build, 1),
@@ -651,7 +719,8 @@ def run(ck):
             ck.sample({"case": clean(case), "impl": o})
         v = verdicts[i]
         if v == "violation":
-            ck.violation("C08_ok is false on the graph Study.stage() built (inside hygiene H8)", clean(case))
+            ck.violation("C08_ok is false on the graph Study.stage() built (inside hygiene H8; staging #%s on the "
+                         "same Study object)" % detail.get(i, {}).get("staging", 1), clean(case))
         elif v.startswith("known:"):
             kid = v.split(":")[1]
             sig_hits[kid] = sig_hits.get(kid, 0) + 1
@@ -704,9 +773,17 @@ def run(ck):
                       "funnel dependencies mixed, 0-4 parameters x 0-5 rows with repeated int/float/str values, template and "
                       "per-row labels, value/label/name tokens and near-miss tokens in cmd/restart/description/resource keys, "
                       "workspace references) in streams valid/prefix/exotic; distinct = distinct (rlimit, params, steps); "
-                      "non-trivial = staged successfully with at least two instances; inside_H8_and_staged counts the cases "
+                      "non-trivial = staged successfully with at least two instances; re-stage stream: a share of the cases is "
+                      "staged 2-4 times on the same Study object (configure_study repeated or toggled, store/load_metadata) and "
+                      "every staging under the model's configuration is compared with the model (stage is a function of the "
+                      "specification); inside_H8_and_staged counts the cases "
                       "on which the theorems' hypotheses hold (there the monitor must be true on the implementation's graph)")
-    ck.cov["traces_validated_against_impl"] = len(cases)
+    ck.cov["traces_validated_against_impl"] = STAGINGS.get("C08", len(cases))
+    hist["restage_plans"] = {}
+    for case in cases:
+        if case.get("restage"):
+            kk = "+".join(case["restage"])
+            hist["restage_plans"][kk] = hist["restage_plans"].get(kk, 0) + 1
     ck.cov["input_distribution"] = hist
     return ck.finish(search=lambda: search(ck))
 
@@ -715,6 +792,9 @@ def search(ck):
     """Proof or correspondence broke: look for a concrete failing input with a bigger budget."""
     rng = random.Random(ck.seed + 7919)
     cases = tiny_cases() + [gen_case(rng, s) for s in ("valid", "prefix") for _ in range(700)]
+    for k, case in enumerate(cases):
+        if k % 3 == 0:
+            case["restage"] = RESTAGE_PLANS[(k // 3) % len(RESTAGE_PLANS)]
     obs, verdicts, detail, errs = evaluate(ck, cases, tag="C08_search")
     for case, v in zip(cases, verdicts):
         if v == "violation":
